@@ -214,6 +214,9 @@ fn td_small_grid(r: &mut Rng) -> Vec<TimeDelta> {
     for s in [0i64, 1, -1, 2, -2, 59, 60, -60, 3600, -3600, 86399, 86400, -86400, 86401, -86401, 172800, 31_536_000, -31_536_000, 8_000_000_000_000, -8_000_000_000_000] {
         for n in [0u32, 1, 100_000_000, 300_000_000, 500_000_000, 700_000_000, 800_000_000, 999_999_999] { if let Some(t) = TimeDelta::new(s, n) { v.push(t); } } }
     for _ in 0..60 { if let Some(t) = TimeDelta::new(r.i64_any() % 200_000, (r.next() % 1_000_000_000) as u32) { v.push(t); } }
+    // day counts around the i32 / u32 wrap points and the width of the date range
+    for d in [1i64 << 31, (1 << 31) - 1, (1 << 31) + 1, 1 << 32, (1 << 32) + 1, (1 << 32) - 1, 1 << 33, 191_491_528, 191_491_529, 95_745_399, 95_746_129] { for sg in [1i64, -1] { for extra in [0i64, 1, -1] {
+        if let Some(t) = TimeDelta::try_seconds(sg * d * 86_400 + extra) { v.push(t); } } } }
     v
 }
 fn jpos(x: NaiveTime, o: NaiveTime) -> i128 { tpos(x) + if o.nanosecond() >= 1_000_000_000 && o.num_seconds_from_midnight() < x.num_seconds_from_midnight() { 1_000_000_000 } else { 0 } }
